@@ -178,6 +178,16 @@ func buildWorker(scratch, flavour string) (string, *instrStats) {
 	return bin, stats
 }
 
+type workerDeath struct {
+	Shard   int
+	Err     string
+	Current string
+	Tail    string
+}
+
+var deaths []workerDeath
+var deathMu sync.Mutex
+
 func runWorkers(bin, prop, tier, flavour string, conf propConf, scratch, data string, seed int64, replay string) ([]*workerResult, []string) {
 	n := conf.Shards
 	if replay != "" {
@@ -243,6 +253,16 @@ func runWorkers(bin, prop, tier, flavour string, conf propConf, scratch, data st
 					tail = tail[len(tail)-3000:]
 				}
 				errs[i] = fmt.Sprintf("worker %d died: %v\ncurrent case: %s\n%s", i, err, strings.TrimSpace(string(cur)), tail)
+				deathMu.Lock()
+				deaths = append(deaths, workerDeath{i, err.Error(), strings.TrimSpace(string(cur)), tail})
+				deathMu.Unlock()
+				// a partial result may exist (the worker flushes on abort)
+				if b, rerr := os.ReadFile(out); rerr == nil {
+					var r workerResult
+					if json.Unmarshal(b, &r) == nil {
+						results[i] = &r
+					}
+				}
 				return
 			}
 			b, rerr := os.ReadFile(out)
@@ -483,10 +503,39 @@ func main() {
 		// a dead worker may itself be what the property forbids (C06 totality):
 		// the per-property code decides by announcing cases; here it is an
 		// infrastructure error unless the property opts in.
-		if !deathIsViolation[prop] {
+		if !deathIsViolation[prop] || len(deaths) == 0 || len(deaths) != len(infra) {
 			cleanup()
 			os.Exit(2)
 		}
+		// for this property a dying worker is what the property forbids: the
+		// case the worker had announced becomes the violation
+		for _, d := range deaths {
+			class := "process died"
+			for _, l := range strings.Split(d.Tail, "\n") {
+				l = strings.TrimSpace(l)
+				if strings.HasPrefix(l, "fatal error:") || strings.HasPrefix(l, "panic:") || strings.Contains(l, "out of memory") || strings.Contains(l, "stack overflow") {
+					class = l
+					break
+				}
+			}
+			if class == "process died" {
+				class = d.Err
+			}
+			sig := "worker died|" + class
+			cs := json.RawMessage(d.Current)
+			if !json.Valid(cs) {
+				cs, _ = json.Marshal(map[string]string{"current": d.Current})
+			}
+			if _, ok := vmap[sig]; ok {
+				vmap[sig].Count++
+				continue
+			}
+			v := &violation{Sig: sig, Clause: "every request returns without crashing", Detail: firstLines(d.Tail, 30), Case: cs, Count: 1}
+			vmap[sig] = v
+			merged.Violations = append(merged.Violations, v)
+		}
+		merged.Exhaustive = false
+		merged.Caps = append(merged.Caps, "a worker died; its shard is incomplete")
 	}
 
 	findings := loadFindings()
